@@ -47,9 +47,13 @@ Posts == IF Thorough
 WellFormedDocs ==
   { [wf |-> "ok", root |-> "mos", kids |-> p \o <<k>> \o q] : p \in Pres, k \in MsgKids, q \in Posts }
   \cup { [wf |-> "ok", root |-> r, kids |-> p \o q] : r \in {"mos", "roCreate", "html"}, p \in Pres, q \in Posts }
+  \* a message element in a namespace is another element: not recognised
+  \cup { [wf |-> "ok", root |-> "mos", kids |-> p \o <<Foreign(t)>> \o q]
+          : t \in {"{urn:verif}roCreate", "{urn:verif}roDelete", "{urn:verif}roElementAction", "{urn:verif}roStorySend"},
+            p \in Pres, q \in Posts }
 MalformedDocs ==
   { [wf |-> w, root |-> "mos", kids |-> <<Foreign("messageID"), Kid(t, FALSE, None, "absent", "absent", None)>>]
-      : w \in {"truncated", "garbled", "empty", "nonxml", "blank"}, t \in {"roCreate", "roDelete"} }
+      : w \in {"truncated", "garbled", "empty", "nonxml", "blank", "trailff", "trailnbsp", "traills", "leadnbsp"}, t \in {"roCreate", "roDelete"} }
 Docs == WellFormedDocs \cup MalformedDocs
 
 VARIABLES doc, res
